@@ -285,11 +285,16 @@ def reference(seq, keys, resids, inter, specs, extra):
     return beads_out, edges_out, inter_out, bool(uncovered_heavy), overlap
 
 
-def check(seq, shape, perm, inner_reverse, resid_scheme, extra, setname, stash, acc, sample=False):
+def check(seq, shape, perm, inner_reverse, resid_scheme, extra, setname, stash, acc, sample=False, world=None):
     from vermouth.processors.do_mapping import do_mapping
     case = {'seq': ''.join(seq), 'shape': shape, 'perm': list(perm), 'inner_reverse': inner_reverse, 'resids': resid_scheme,
             'extra': extra, 'mapset': setname, 'stash': stash}
-    ff_from, ff_to, mappings, specs = build_mappings(setname)
+    if world is not None and setname in world:
+        ff_from, ff_to, mappings, specs = world[setname]      # ONE collection of mapping objects over several molecules
+    else:
+        ff_from, ff_to, mappings, specs = build_mappings(setname)
+        if world is not None:
+            world[setname] = (ff_from, ff_to, mappings, specs)
     mol, keys, resids, inter = build_molecule(ff_from, seq, shape, perm, inner_reverse, resid_scheme, extra)
     beads, edges, interactions, expect_unmapped, expect_overlap = reference(seq, keys, resids, inter, specs, extra)
     try:
@@ -463,9 +468,30 @@ def check_modification(seq, shape, perm, inner_reverse, modified, acc, sample=Fa
         acc.violation(sig, desc, case)
 
 
+def sequence_case(item, acc):
+    """One collection of Mapping objects (as DoMapping.run_system uses it) over several molecules, each judged on its own."""
+    setname, mols = item
+    world = {}
+    before = len(acc.violations)
+    for seq, shape, perm, inner in mols:
+        check(seq, shape, perm, inner, 'gapped', None, setname, True, acc, world=world)
+    for idx in range(before, len(acc.violations)):
+        sig, desc, case = acc.violations[idx]
+        acc.violations[idx] = (sig + '(molecule-sequence)', 'one mapping collection over the molecules %r: %s' % (list(mols), desc),
+                               {'layer': 'sequence', 'mapset': setname, 'molecules': [[''.join(m[0]), m[1], list(m[2]), m[3]] for m in mols]})
+
+
+SEQ_POOL = [(('A',), 'linear', (0,), False), (('A', 'B'), 'linear', (1, 0), 'spread'), (('B', 'A', 'A'), 'ring', (2, 0, 1), True),
+            (('A', 'A', 'B'), 'star', (0, 1, 2), False), (('B', 'B'), 'linear', (0, 1), True)]
+
+
 def work(task):
     common.bind_repo()
     acc = Acc()
+    if isinstance(task, tuple) and task and task[0] == 'sequence':
+        for item in task[1]:
+            sequence_case(item, acc)
+        return acc
     for n, item in enumerate(task):
         if item[0] == 'modification':
             check_modification(*item[1:], acc, sample=(acc.states % 1009 == 0))
@@ -522,11 +548,25 @@ def run(ctx):
     for part in common.pmap(work, list(common.chunked(items, max(1, len(items) // 96)))):
         acc += part
     ctx.layer('mapping', acc)
+    seqs = []
+    for setname in MAPSETS:
+        for mols in itertools.permutations(SEQ_POOL, 2):
+            seqs.append((setname, mols))
+        if not ctx.quick:
+            for mols in itertools.permutations(SEQ_POOL, 3):
+                seqs.append((setname, mols))
+    acc = Acc()
+    for part in common.pmap(work, [('sequence', chunk) for chunk in common.chunked(seqs, max(1, len(seqs) // 32))]):
+        acc += part
+    ctx.layer('molecule-sequences', acc)
 
 
 def replay(case):
     common.bind_repo()
     acc = Acc()
+    if case.get('layer') == 'sequence':
+        sequence_case((case['mapset'], [(tuple(m[0]), m[1], tuple(m[2]), m[3]) for m in case['molecules']]), acc)
+        return [(s, d) for s, d, _ in acc.violations]
     if case.get('layer') == 'modification':
         check_modification(tuple(case['seq']), case['shape'], tuple(case['perm']), case['inner_reverse'], tuple(case['modified']), acc)
         return [(s, d) for s, d, _ in acc.violations]
